@@ -303,6 +303,7 @@ pub fn run(ctx: &mut Ctx) {
     }
     crate::spaces::render_probes(ctx, &["all", "some", "none"]);
     crate::spaces::width_probes(ctx);
+    crate::spaces::sweep::length_sweep(ctx);
     crate::spaces::nested_iteration_probes(ctx);
     crate::spaces::type_grid_probes(ctx, &["all", "some", "none"]);
     crate::spaces::depth_probes(ctx);
